@@ -103,6 +103,26 @@ def check_draw(gen, method, fields, b, n_eff, p, sizes, what):
     return f"reshuffle iff {pred}; batch = dynamic_slice(store', idx', {sizes})"
 
 
+def check_param_draw(G):
+    """one draw of the parameter generator: per key, own key / samples / index; batch = slice of the (possibly reshuffled) samples"""
+    keys = ('nu', 'th')
+    gen = G.param(keys)
+    g = freeze(gen)
+    new, batch = g.param_batch()
+    for k in keys:
+        pred, k2, s2, i2 = spec_step(gen.fields['keys'][k], gen.fields['param_n_samples'][k], gen.fields['curr_param_idx'][k],
+                                     K('bp'), K('n_p'), None)
+        expect_same(wild_keys(fz(new.fields['param_n_samples'][k])), wild_keys(fz(s2)), f"new.param_n_samples[{k}]")
+        expect_same(new.fields['curr_param_idx'][k], i2, f"new.curr_param_idx[{k}]")
+        expect_same(wild_keys(fz(batch[k])), wild_keys(Sym('dynamic_slice', fz(s2), (fz(i2), 0), (fz(K('bp')), 1))), f"batch[{k}]")
+    if set(batch.keys()) != set(keys):
+        raise Violation("batch keys", str(sorted(batch.keys())), str(sorted(keys)))
+    for f, v in gen.fields.items():
+        if f not in ('keys', 'param_n_samples', 'curr_param_idx') and not same(new.fields.get(f), v):
+            raise Violation(f"field {f}", f"new.{f} = {new.fields.get(f)!r}", "unchanged")
+    return "per key: own key, own samples, own index"
+
+
 def run(chk):
     G = GenEnv(chk.repo)
     chk.files = G.w.files
@@ -147,23 +167,7 @@ def run(chk):
         return f"reshuffle iff {pred}"
     chk.run("C09.R1", f"{MOD}:DataGeneratorObservations.obs_batch", {}, go_obs, construct="DataGeneratorObservations.obs_batch step")
 
-    def go_param():
-        keys = ('nu', 'th')
-        gen = G.param(keys)
-        g = freeze(gen)
-        new, batch = g.param_batch()
-        for k in keys:
-            pred, k2, s2, i2 = spec_step(gen.fields['keys'][k], gen.fields['param_n_samples'][k], gen.fields['curr_param_idx'][k],
-                                         K('bp'), K('n_p'), None)
-            expect_same(wild_keys(fz(new.fields['param_n_samples'][k])), wild_keys(fz(s2)), f"new.param_n_samples[{k}]")
-            expect_same(new.fields['curr_param_idx'][k], i2, f"new.curr_param_idx[{k}]")
-            expect_same(wild_keys(fz(batch[k])), wild_keys(Sym('dynamic_slice', fz(s2), (fz(i2), 0), (fz(K('bp')), 1))), f"batch[{k}]")
-        if set(batch.keys()) != set(keys):
-            raise Violation("batch keys", str(sorted(batch.keys())), str(sorted(keys)))
-        for f, v in gen.fields.items():
-            if f not in ('keys', 'param_n_samples', 'curr_param_idx') and not same(new.fields.get(f), v):
-                raise Violation(f"field {f}", f"new.{f} = {new.fields.get(f)!r}", "unchanged")
-        return "per key: own key, own samples, own index"
+    go_param = lambda: check_param_draw(G)
     chk.run("C09.R1", f"{MOD}:DataGeneratorParameter.param_batch", {}, go_param, construct="DataGeneratorParameter.param_batch step")
 
     # ---------------- R3: get_batch composes the individual draws and carries every advanced state
